@@ -103,6 +103,9 @@ func c10R3(r *Run, li *c10LaxInfo) {
 	for _, k := range res.SigMismatch {
 		r.Fail("signature:"+k, "-", "the fork's parameter list of "+k+" is not upstream's plus added parameters")
 	}
+	for _, k := range res.Derived {
+		r.Pass("signature:"+k, "-", "the fork's parameter list of "+k+" is upstream's without the parameter(s) that every upstream call derives from another argument by a reflect.Type method (read as that derivation inside upstream's function), plus added parameters")
+	}
 	for _, side := range []string{"fork", "upstream"} {
 		list := res.FuncsOnlyFork
 		if side == "upstream" {
@@ -216,7 +219,7 @@ func c10R3(r *Run, li *c10LaxInfo) {
 	}
 	r.Pass("summary", "-", fmt.Sprintf("%d functions; %d sites identical, %d identical after drift rewrites, %d covered by drift allowances", res.Functions, res.Matched, matchedAfter, allowed))
 	// the type variables the fork dispatches on are what the rewrites claim
-	c10TypeVars(r)
+	c10TypeVars(r, res.Renamed)
 	c10R3Items(r, res, up.Fset)
 	if os.Getenv("CTVERIF_C10_DEBUG") != "" {
 		for _, s := range res.OnlyUp {
@@ -236,11 +239,29 @@ func c10R3(r *Run, li *c10LaxInfo) {
 }
 
 // c10TypeVars: xType = reflect.TypeOf(<value of type X>) for the dispatch variables.
-func c10TypeVars(r *Run) {
+// A variable is found under upstream's name, or under the name ForkDiff matched to
+// it by definition (renamed: fork name -> upstream name).
+func c10TypeVars(r *Run, renamed map[string]string) {
 	want := map[string]string{"rawValueType": "asn1.RawValue", "objectIdentifierType": "asn1.ObjectIdentifier", "bitStringType": "asn1.BitString",
 		"timeType": "time.Time", "enumeratedType": "asn1.Enumerated", "flagType": "asn1.Flag", "rawContentsType": "asn1.RawContent", "bigIntType": "*big.Int"}
 	pk := r.P.Pkg("asn1")
 	seen := map[string]bool{}
+	// what the declaration says holds for good only if no function writes the variable
+	written := map[types.Object]token.Pos{}
+	for _, f := range pk.Syntax {
+		for _, d := range f.Decls {
+			if fd, ok := d.(*ast.FuncDecl); ok && fd.Body != nil {
+				w := fdWrittenIn(fd.Body, pk.TypesInfo)
+				for _, m := range []map[types.Object]bool{w.asg, w.addr} {
+					for o := range m {
+						if o != nil && o.Parent() == pk.Types.Scope() {
+							written[o] = fd.Pos()
+						}
+					}
+				}
+			}
+		}
+	}
 	for _, f := range pk.Syntax {
 		ast.Inspect(f, func(n ast.Node) bool {
 			vs, ok := n.(*ast.ValueSpec)
@@ -248,18 +269,27 @@ func c10TypeVars(r *Run) {
 				return true
 			}
 			for i, id := range vs.Names {
-				w, ok := want[id.Name]
+				name := id.Name
+				if n, ok := renamed[name]; ok {
+					name = n
+				}
+				w, ok := want[name]
 				if !ok || pk.Types.Scope().Lookup(id.Name) != pk.TypesInfo.Defs[id] {
 					continue
 				}
-				seen[id.Name] = true
+				seen[name] = true
 				got := "?"
 				if call, ok := vs.Values[i].(*ast.CallExpr); ok && len(call.Args) == 1 && types.ExprString(call.Fun) == "reflect.TypeOf" {
 					if tv, ok := pk.TypesInfo.Types[call.Args[0]]; ok {
 						got = TypeName(tv.Type)
 					}
 				}
-				r.Check("typevar:"+id.Name, got == w, r.P.Pos(id.Pos()), id.Name+" = reflect.TypeOf(value of type "+got+"), want "+w)
+				r.Check("typevar:"+name, got == w, r.P.Pos(id.Pos()), id.Name+" = reflect.TypeOf(value of type "+got+"), want "+w)
+				if pos, isWritten := written[pk.TypesInfo.Defs[id]]; isWritten {
+					r.Fail("typevar:"+name+":constant", r.P.Pos(pos), id.Name+" is assigned or has its address taken in a function: it need not hold the type of its declaration when the parser dispatches on it")
+				} else {
+					r.Pass("typevar:"+name+":constant", r.P.Pos(id.Pos()), id.Name+" is written by its declaration only")
+				}
 			}
 			return true
 		})
